@@ -640,7 +640,7 @@ def check_return_edge(chk, m, fn, t, v, pred, blk, part, S):
     where = "edge %s->return%s" % ((pred.name.lstrip("%") if pred else blk.name), "" if part else " (newline crossed)")
     pv = [f for f in S if f[0] == "pval"]
     if v.is_const_int() and v.sval == -1:
-        ok = bool(pv) and pv[0][2] == 0 and ("null", pv[0][1]) in S
+        ok = bool(pv) and pv[0][2] == 0 and (("null", pv[0][1]) in S or pv[0][1] == "null")
         chk.ob("H2.end-protocol", where, ok,
                "-1 is returned with *p == NULL on this path (so every later call keeps returning -1); cursor cell holds %s"
                % (str(pv[0][1:]) if pv else "an unknown value"), t.loc, fn.name)
